@@ -50,6 +50,9 @@ def main(argv=None):
         return 2
 
 
+import warnings
+warnings.filterwarnings("ignore", category=RuntimeWarning, message="coroutine .* was never awaited")
+
 if __name__ == "__main__":
     sys.stdout.reconfigure(line_buffering=True)
     sys.exit(main())
